@@ -173,6 +173,10 @@ def pmap(fn, items, chunksize=1):
         return [fn(x) for x in items]
     import multiprocessing as mp
 
-    ctx = mp.get_context("fork")
-    with ctx.Pool(processes=min(n, len(items))) as pool:
+    try:
+        ctx = mp.get_context("fork")
+        pool = ctx.Pool(processes=min(n, len(items)))
+    except (OSError, ValueError, ImportError):  # no semaphores / no fork here: same results, one process
+        return [fn(x) for x in items]
+    with pool:
         return pool.map(fn, items, chunksize=chunksize)
